@@ -19,7 +19,7 @@
      hop / run_hist    histories mixing Update/Delete and UpdateBatch, each
                   batch with its own application order of the per-nibble groups *)
 From Coq Require Import Sorted.
-From GV Require Import Lib.Tactics Trie.Hex Trie.Node Trie.Ops Trie.Hash Trie.OpsProofs Trie.Canon Trie.Iter Trie.IterProofs.
+From GV Require Import Lib.Tactics Trie.Hex Trie.Node Trie.Ops Trie.Hash Trie.OpsProofs Trie.Canon Trie.Iter Trie.IterProofs Trie.Stack Trie.StackProofs.
 Local Open Scope N_scope.
 
 (* keybytesToHex of a byte key is a valid hex key *)
@@ -172,6 +172,39 @@ Theorem C06_iter_sorted_complete_hist : forall resolve hs t,
 Proof. exact iter_sorted_complete_hist. Qed.
 Print Assumptions C06_iter_sorted_complete_hist.
 
+(* (g, stack trie) the streaming ordered builder (stacktrie.go), for every hash
+   function with 32-byte output.
+   SOUNDNESS: whenever StackTrie accepts a sequence of pairs (every Update
+   returns nil, no panic: [st_feed] = Some) its Hash() is the root hash of the
+   ordinary trie built from the same pairs by Trie.Update. *)
+Theorem C06_stack_trie_sound : forall (H : list N -> list N),
+  (forall x, length (H x) = 32%nat) ->
+  forall resolve kvs s,
+  bytes_ops kvs -> st_feed H stack_new kvs = Some s ->
+  exists t ev h, update_seq resolve NEmpty kvs = TOk (t, ev) /\
+    st_root H s = TOk h /\ hash_root H t = Some h.
+Proof. exact stack_trie_sound. Qed.
+Print Assumptions C06_stack_trie_sound.
+
+(* FULL: for byte keys of one length fed in strictly ascending order
+   ([asc]: bytes.Compare(last, key) < 0 on the hex keys, the check Update itself
+   makes) with non-empty values, StackTrie accepts every pair (no error, no
+   panic, no fuel exhaustion) and its Hash() equals the root hash of the trie
+   built from the same pairs.  (The Go StackTrie drops the terminator, so key
+   sets in which one key is a proper prefix of another are outside its
+   domain: the model, like the Go code, panics there.) *)
+Theorem C06_stack_trie_root : forall (H : list N -> list N),
+  (forall x, length (H x) = 32%nat) ->
+  forall resolve kvs Lb,
+  bytes_ops kvs ->
+  Forall (fun kv => snd kv <> [] /\ length (fst kv) = Lb) kvs ->
+  asc [] kvs ->
+  exists s t ev h, st_feed H stack_new kvs = Some s /\
+    update_seq resolve NEmpty kvs = TOk (t, ev) /\
+    st_root H s = TOk h /\ hash_root H t = Some h.
+Proof. exact stack_trie_root. Qed.
+Print Assumptions C06_stack_trie_root.
+
 (* non-vacuity: two different histories (overwrite, a deletion that collapses a
    branch and merges short nodes, a batch above the parallel threshold applied
    in descending nibble order) with the same final map; the hypotheses hold and
@@ -191,9 +224,12 @@ Example C06_nonvacuous :
     (NShort [1; 2]
        (NFull [NEmpty; NEmpty; NEmpty; NShort [4; 16] (NValue [2]); NEmpty; NEmpty; NEmpty; NEmpty;
                NEmpty; NEmpty; NEmpty; NEmpty; NEmpty; NEmpty; NEmpty; NEmpty; NValue [4]]))
-    = TOk [([18], [4]); ([18; 52], [2])].
+    = TOk [([18], [4]); ([18; 52], [2])] /\
+  (let kvs := [([18; 52], [1]); ([18; 53], [2; 2]); ([33; 0], [3])] in
+   Forall (fun kv => snd kv <> [] /\ length (fst kv) = 2%nat) kvs /\ asc [] kvs /\
+   st_feed (fun _ => repeat 0 32) stack_new kvs <> None).
 Proof.
-  cbv zeta. split; [|split; [|split; [|split; [|split]]]].
+  cbv zeta. split; [|split; [|split; [|split; [|split; [|split]]]]].
   - repeat constructor.
   - apply Forall_cons; [|constructor]. split; [repeat constructor|]. split; [|split].
     + repeat (apply NoDup_cons; [simpl; intuition discriminate|]). apply NoDup_nil.
@@ -207,4 +243,5 @@ Proof.
   - vm_compute. reflexivity.
   - vm_compute. reflexivity.
   - vm_compute. reflexivity.
+  - split; [repeat constructor; discriminate|]. split; [vm_compute; auto|vm_compute; discriminate].
 Qed.
